@@ -213,17 +213,25 @@ def import_time_only(src, files):
     module_level = {fn.name.lstrip('_') for (f, cls, fn) in funcs.values() if cls is None}
     for key, (f, cls, fn) in funcs.items():
         names = set()
+        # a call through a local variable / parameter (`build = TABLE.get(op); build(a, b)`) calls whatever value the local holds - functions used as values are
+        # accounted for below -, not the function of the repository that happens to be spelled like the local
+        locals_ = {a.arg for a in fn.args.args + fn.args.kwonlyargs} | {x.id for x in walk_no_nested(fn) if isinstance(x, ast.Name) and isinstance(x.ctx, ast.Store)}
         for n in walk_no_nested(fn):
             if isinstance(n, ast.Call):
+                if isinstance(n.func, ast.Name) and n.func.id in locals_:
+                    continue
                 nm = n.func.attr if isinstance(n.func, ast.Attribute) else (n.func.id if isinstance(n.func, ast.Name) else None)
                 if nm:
-                    names.add(nm.lstrip('_'))
+                    # a bare name can only be a function that is not a method ('#' marks it); an attribute call can be anything of that name
+                    names.add(nm.lstrip('_') if isinstance(n.func, ast.Attribute) else '#' + nm.lstrip('_'))
             elif isinstance(n, ast.Name) and isinstance(n.ctx, ast.Load) and n.id.lstrip('_') in module_level:
-                names.add(n.id.lstrip('_'))         # a module-level function used as a value (`f = helper`, a table of functions): whoever holds it may call it
+                names.add('#' + n.id.lstrip('_'))         # a module-level function used as a value (`f = helper`, a table of functions): whoever holds it may call it
         callees[key] = names
     by_short = {}
     for key, (f, cls, fn) in funcs.items():
         by_short.setdefault(fn.name.lstrip('_'), set()).add(key)
+        if cls is None:
+            by_short.setdefault('#' + fn.name.lstrip('_'), set()).add(key)
     called_somewhere = set()
     for key, names in callees.items():
         for nm in names:
